@@ -334,3 +334,49 @@ func hasField(t types.Type, name string) bool {
 	}
 	return false
 }
+
+// sameNameCopyMismatches inspects the composite literal held by alloc: a
+// destination field whose value is computed from exactly ONE field of one
+// source struct must take it from the field of the same name whenever the
+// source has one ("wrong variable of the same type").
+func sameNameCopyMismatches(lit *ssa.Alloc) (mismatches []string, copied int) {
+	st, ok := deref(lit.Type()).Underlying().(*types.Struct)
+	if !ok {
+		return nil, 0
+	}
+	for i := 0; i < st.NumFields(); i++ {
+		dst := st.Field(i).Name()
+		v := litField(lit, dst)
+		if v == nil {
+			continue
+		}
+		type src struct {
+			field string
+			typ   types.Type
+		}
+		seen := map[string]src{}
+		Derives(v, func(x ssa.Value) bool {
+			switch y := x.(type) {
+			case *ssa.FieldAddr:
+				if _, n := namedOf(y.X.Type()); n != "" {
+					seen[fieldName(y.X.Type(), y.Field)] = src{fieldName(y.X.Type(), y.Field), y.X.Type()}
+				}
+			case *ssa.Field:
+				if _, n := namedOf(y.X.Type()); n != "" {
+					seen[fieldName(y.X.Type(), y.Field)] = src{fieldName(y.X.Type(), y.Field), y.X.Type()}
+				}
+			}
+			return false
+		})
+		if len(seen) != 1 {
+			continue
+		}
+		for _, s := range seen {
+			copied++
+			if s.field != dst && hasField(s.typ, dst) {
+				mismatches = append(mismatches, dst+" <- ."+s.field)
+			}
+		}
+	}
+	return mismatches, copied
+}
